@@ -296,6 +296,12 @@ class LimitAnalysis(FlowWalker):
             self.ev(v, env)
         return V("bool", B, None, const=r)
 
+    def ev_NamedExpr(self, n, env):
+        v = self.ev(n.value, env)
+        if isinstance(n.target, ast.Name):
+            env.names[n.target.id] = v
+        return v
+
     def ev_IfExp(self, n, env):
         r = self.fold(n.test, env)
         self.ev(n.test, env)
